@@ -85,7 +85,7 @@ impl<'a> Ctx<'a> {
 	}
 
 	/// Game-level observables (start, end, gecko, metadata presence, quirks) against the model.
-	pub fn check_game_level(&self, check: &str, g: &peppi::game::immutable::Game, out: &mut Vec<Viol>) {
+	pub fn check_game_level(&self, check: &str, g: &peppi::game::immutable::Game, with_quirk: bool, out: &mut Vec<Viol>) {
 		let cls = shape_class(self.beh);
 		if g.start.bytes.0 != self.built.start_block {
 			out.push(viol(check, &cls, "mismatch", "start block not retained verbatim".into()));
@@ -131,7 +131,7 @@ impl<'a> Ctx<'a> {
 			));
 		}
 		let q = g.quirks.map_or(false, |q| q.double_game_end);
-		if q != self.beh.fin.quirk {
+		if with_quirk && q != self.beh.fin.quirk {
 			out.push(viol(check, &cls, "mismatch", format!("double_game_end quirk={} model={}", q, self.beh.fin.quirk)));
 		}
 	}
@@ -511,6 +511,161 @@ impl<'a> Ctx<'a> {
 		}
 	}
 
+	/// C17: the accepted (irregular) game serialises to a self-consistent file and a fixed point.
+	/// `self.built` is the irregular input x; `canon` is the concretisation of the model's emission.
+	pub fn c17(&self, canon: &Built, out: &mut Vec<Viol>) {
+		let cls = format!("{},junk={}", shape_class(self.beh), self.beh.junk);
+		let g = match real::read_slp_noopts(&self.built.bytes) {
+			Outcome::Ok(g) => g,
+			o => {
+				out.push(outcome_viol("tolerated_read", &cls, &o));
+				return;
+			}
+		};
+		let w1 = match real::write_slp(&g) {
+			Outcome::Ok(w) => w,
+			o => {
+				out.push(outcome_viol("tolerated_write", &cls, &o));
+				return;
+			}
+		};
+		// (1) declared raw length = actual length of the raw element, measured by an independent walk
+		match walk_raw(&w1) {
+			Ok((declared, actual)) => {
+				if declared != actual {
+					out.push(viol("declared_length", &cls, "mismatch", format!("declared raw length {} but the raw element is {} bytes", declared, actual)));
+				}
+			}
+			Err(e) => out.push(viol("declared_length", &cls, "mismatch", format!("written file is not walkable: {}", e))),
+		}
+		// the model's prediction of the written file
+		if let Some(i) = first_diff(&w1, &canon.bytes) {
+			out.push(viol("canonical_emission", &cls, "mismatch", format!("written file differs from the model's emission at byte {} (len {} vs {})", i, w1.len(), canon.bytes.len())));
+		}
+		// (2) re-read: same start, end, metadata, gecko codes, frame data
+		let g2 = match real::read_slp_noopts(&w1) {
+			Outcome::Ok(g) => g,
+			o => {
+				out.push(outcome_viol("reread", &cls, &o));
+				return;
+			}
+		};
+		if g.start.bytes != g2.start.bytes || format!("{:?}", g.start) != format!("{:?}", g2.start) {
+			out.push(viol("reread", &cls, "mismatch", "start differs".into()));
+		}
+		if g.end != g2.end {
+			out.push(viol("reread", &cls, "mismatch", "end differs".into()));
+		}
+		if g.metadata != g2.metadata {
+			out.push(viol("reread", &cls, "mismatch", "metadata differs".into()));
+		}
+		if g.gecko_codes != g2.gecko_codes {
+			out.push(viol("reread", &cls, "mismatch", "gecko codes differ".into()));
+		}
+		if let Some(m) = same_cols(&cols::from_immutable(&g.frames), &cols::from_immutable(&g2.frames), true) {
+			out.push(viol("reread", &cls, "mismatch", format!("frame data: {}", m)));
+		}
+		// (3) fixed point
+		match real::write_slp(&g2) {
+			Outcome::Ok(w2) => {
+				if let Some(i) = first_diff(&w2, &w1) {
+					out.push(viol("fixed_point", &cls, "mismatch", format!("second write differs at byte {}", i)));
+				}
+			}
+			o => out.push(outcome_viol("fixed_point", &cls, &o)),
+		}
+	}
+
+	/// C08 (first half): unknown events declared in the payload table, inserted at every event
+	/// boundary after Game Start, leave the parsed game identical.
+	pub fn c08_insertions(&self, o: &crate::gen::GenOpts, out: &mut Vec<Viol>) {
+		let cls = shape_class(self.beh);
+		let base = match real::read_slp_noopts(&self.built.bytes) {
+			Outcome::Ok(g) => g,
+			_ => return, // C01's business
+		};
+		let base_cols = cols::from_immutable(&base.frames);
+		let evs = crate::gen::file_events(self.beh);
+		let first_ge = evs.iter().position(|e| e.k == "ge");
+		// boundaries: before every event up to and including the first Game End; after a single Game End
+		let mut positions: Vec<usize> = (0..=first_ge.unwrap_or(evs.len())).collect();
+		if self.beh.file_end == "single" {
+			positions.push(evs.len());
+		}
+		let l = self.db.for_version(self.built.ver[0], self.built.ver[1]);
+		let table: Vec<String> = self.beh.table.iter().filter(|k| l.gecko || (*k != "gecko" && *k != "split")).cloned().collect();
+		let unk = |code: u8, tok: usize| crate::gen::AEvent { k: "unk".into(), id: 0, p: 0, f: 0, x: code as i64, tok };
+		let mut variants: Vec<(String, Vec<crate::gen::AEvent>)> = vec![];
+		for (j, pos) in positions.iter().enumerate() {
+			let mut v = evs.clone();
+			v.insert(*pos, unk(if j % 2 == 0 { 0x40 } else { 0x7F }, 100000 + j));
+			variants.push((format!("one@{}", pos), v));
+		}
+		// several insertions, repeated codes, adjacent unknown events
+		let mut r = crate::util::Rng::keyed(o.seed, 0xC08, evs.len() as u64);
+		for k in 0..3 {
+			let mut v = evs.clone();
+			let lim = first_ge.unwrap_or(evs.len());
+			for j in 0..(2 + k) {
+				let pos = r.below(lim as u64 + 1) as usize;
+				v.insert(pos.min(v.len()), unk(if r.chance(1, 2) { 0x40 } else { 0x7F }, 200000 + 10 * k + j));
+			}
+			variants.push((format!("multi{}", k), v));
+		}
+		for (name, v) in variants {
+			let mut oo = o.clone();
+			oo.unk_sizes.insert(0x40, [1u16, 7, 600][(o.seed % 3) as usize]);
+			oo.unk_sizes.insert(0x7F, [600u16, 1, 7][(o.seed % 3) as usize]);
+			let with = crate::gen::build_file(self.db, &self.beh.occ, &v, &table, self.beh.fin.gactual, self.beh.meta == "some", 0, &oo);
+			let g = match real::read_slp_noopts(&with.bytes) {
+				Outcome::Ok(g) => g,
+				o2 => {
+					out.push(viol("unknown_insert_read", &cls, o2.kind(), format!("{}: {}", name, o2.detail())));
+					continue;
+				}
+			};
+			let mut diff = same_cols(&base_cols, &cols::from_immutable(&g.frames), true);
+			if diff.is_none() && (g.start.bytes != base.start.bytes || format!("{:?}", g.start) != format!("{:?}", base.start)) {
+				diff = Some("start differs".into());
+			}
+			if diff.is_none() && g.end != base.end {
+				diff = Some("end differs".into());
+			}
+			if diff.is_none() && g.metadata != base.metadata {
+				diff = Some("metadata differs".into());
+			}
+			if diff.is_none() && g.gecko_codes != base.gecko_codes {
+				diff = Some("gecko codes differ".into());
+			}
+			if diff.is_none() && g.quirks.map(|q| q.double_game_end) != base.quirks.map(|q| q.double_game_end) {
+				diff = Some("quirks differ".into());
+			}
+			if let Some(d) = diff {
+				out.push(viol("unknown_insert", &cls, "mismatch", format!("{}: {}", name, d)));
+			}
+		}
+	}
+
+	/// C08 (second half): a replay of a newer version whose known events carry extra trailing bytes
+	/// parses, and every known field has the value it would have without the extra bytes.
+	pub fn c08_newer(&self, out: &mut Vec<Viol>) {
+		let cls = format!("{},version:{}.{}", shape_class(self.beh), self.built.ver[0], self.built.ver[1]);
+		let g = match real::read_slp_noopts(&self.built.bytes) {
+			Outcome::Ok(g) => g,
+			o => {
+				out.push(viol("newer_version_read", &cls, o.kind(), o.detail()));
+				return;
+			}
+		};
+		let c = cols::from_immutable(&g.frames);
+		if let Some(m) = compare(&self.exp, &c, &CmpOpts { presence: true, rows: None, missing_ok_if_empty: false }) {
+			out.push(viol("newer_version_fields", &cls, "mismatch", m));
+		}
+		// (the duplicated-Game-End quirk is recognised by the nominal block length of the version and is
+		// not an event field: it is not compared for versions whose blocks are longer than nominal)
+		self.check_game_level("newer_version_fields", &g, false, out);
+	}
+
 	/// C02: .slp -> .slpp -> .slp under each compression; hash and quirks carried.
 	pub fn slpp_roundtrip(&self, comps: &[Comp], with_hash: bool, out: &mut Vec<Viol>) {
 		let cls = shape_class(self.beh);
@@ -707,4 +862,40 @@ pub fn rows_vs_cols(rc: &cols::Cols, c: &cols::Cols, n: usize) -> Option<String>
 		(r, o) => return Some(format!("row view items {:?} vs offsets {:?}", r.is_some(), o.is_some())),
 	}
 	None
+}
+
+/// Independent walk of a .slp: returns (declared raw length, measured length of the raw element:
+/// Payloads event + every event the payload table lets us step over until the `U`/`}` that follows).
+pub fn walk_raw(b: &[u8]) -> Result<(usize, usize), String> {
+	if b.len() < 17 || b[..11] != crate::gen::FILE_SIGNATURE {
+		return Err("bad signature".into());
+	}
+	let declared = u32::from_be_bytes([b[11], b[12], b[13], b[14]]) as usize;
+	let mut sizes = [None::<usize>; 256];
+	let mut p = 15;
+	if b[p] != 0x35 {
+		return Err("no payloads event".into());
+	}
+	let tl = b[p + 1] as usize;
+	let n = (tl - 1) / 3;
+	for i in 0..n {
+		let o = p + 2 + 3 * i;
+		sizes[b[o] as usize] = Some(u16::from_be_bytes([b[o + 1], b[o + 2]]) as usize);
+	}
+	p += 1 + tl;
+	// the element after the raw array is `U\x08metadata{` or the closing brace
+	loop {
+		if p >= b.len() {
+			return Err("ran off the end".into());
+		}
+		let at_tail = (b[p] == 0x55 && b[p..].starts_with(&crate::gen::META_KEY)) || (b[p] == 0x7d && p + 1 == b.len());
+		if at_tail && sizes[b[p] as usize].is_none() {
+			break;
+		}
+		match sizes[b[p] as usize] {
+			Some(s) => p += 1 + s,
+			None => return Err(format!("undeclared event {:#x} at {}", b[p], p)),
+		}
+	}
+	Ok((declared, p - 15))
 }
